@@ -85,9 +85,9 @@ func (h *legacyHandler) QueueResourcePack(info *Info) error {
 }
 
 // with comments form java code
+//
+// The caller must hold the handler's lock.
 func (h *legacyHandler) tickResourcePackQueue() error {
-	h.Lock()
-	defer h.Unlock()
 	queued, ok := h.outstandingPacks.Front()
 	if ok {
 		// Check if the player declined a resource pack once already
@@ -104,7 +104,7 @@ func (h *legacyHandler) tickResourcePackQueue() error {
 					Hash:   queued.Hash,
 					Status: DeclinedResponseStatus,
 				}
-				_, err := h.OnResourcePackResponse(resBundle)
+				_, err := h.onResourcePackResponseLocked(resBundle, h.shouldDisconnectForForcePack)
 				if err != nil {
 					return err
 				}
@@ -132,7 +132,15 @@ func (h *legacyHandler) onResourcePackResponse(
 ) (bool, error) {
 	h.Lock()
 	defer h.Unlock()
+	return h.onResourcePackResponseLocked(bundle, shouldDisconnectForForcePack)
+}
 
+// onResourcePackResponseLocked handles a response while the handler's lock is held;
+// it is also used by tickResourcePackQueue to decline queued packs.
+func (h *legacyHandler) onResourcePackResponseLocked(
+	bundle *ResponseBundle,
+	shouldDisconnectForForcePack func(e *PlayerResourcePackStatusEvent) bool,
+) (bool, error) {
 	peek := bundle.Status.Intermediate()
 	var queued *Info
 	if peek {
